@@ -434,6 +434,7 @@ func main() {
 	// ---- verifrt (always present so that the harness compiles in every variant) --------------------------
 	rtDir := filepath.Join(*repo, "internal/verif/verifrt")
 	repl[filepath.Join(rtDir, "rt.go")] = filepath.Join(*verif, "inject/verifrt/rt.go")
+	repl[filepath.Join(rtDir, "deep.go")] = filepath.Join(*verif, "inject/verifrt/deep.go")
 
 	var nb bytes.Buffer
 
@@ -808,7 +809,7 @@ func accessorSource(p pkgInfo, vars []string, verif string) []byte {
 
 		b.WriteString(ts)
 	} else {
-		fmt.Fprintf(&b, "package %s\n\nimport \"fmt\"\n", p.name)
+		fmt.Fprintf(&b, "package %s\n\nimport (\n\t\"fmt\"\n\n\t%q\n)\n", p.name, modPath+"/internal/verif/verifrt")
 	}
 
 	if p.dir == "" {
@@ -833,10 +834,10 @@ func accessorSource(p pkgInfo, vars []string, verif string) []byte {
 	b.WriteString("func VerifGlobals() string {\n\ts := \"\"\n")
 
 	for _, v := range vars {
-		fmt.Fprintf(&b, "\ts += fmt.Sprintf(\"%s=%%#v;\", %s)\n", v, v)
+		fmt.Fprintf(&b, "\ts += \"%s=\" + verifrt.Deep(&%s) + \";\"\n", v, v)
 	}
 
-	b.WriteString("\t_ = fmt.Sprint\n\n\treturn s\n}\n\n")
+	b.WriteString("\t_ = fmt.Sprint\n\t_ = verifrt.Deep\n\n\treturn s\n}\n\n")
 	fmt.Fprintf(&b, "// VerifGlobalNames lists them.\nvar verifGlobalNames = %#v\n\n", vars)
 	b.WriteString("// VerifGlobalNames returns the names of the package-level variables covered by VerifGlobals.\n")
 	b.WriteString("func VerifGlobalNames() []string { return verifGlobalNames }\n")
